@@ -203,11 +203,22 @@ def run(ctx):
             return int(num(e.slice.upper))
         return None
 
-    def emitted(body, name='vardef'):
+    def concat_terms(e):
+        if isinstance(e, ast.BinOp) and isinstance(e.op, ast.Add):
+            return concat_terms(e.left) + concat_terms(e.right)
+        return [e]
+
+    def emitted(body, name=None):
+        """pieces of text appended, in order, by the statements of this block: `acc += piece` or `acc.append(piece + piece ...)`"""
         out = []
         for st in body:
-            if isinstance(st, ast.AugAssign) and isinstance(st.target, ast.Name) and st.target.id == name and isinstance(st.op, ast.Add):
-                out.append((st, width(st.value)))
+            if isinstance(st, ast.AugAssign) and isinstance(st.target, ast.Name) and isinstance(st.op, ast.Add):
+                for t_ in concat_terms(st.value):
+                    out.append((st, width(t_)))
+            elif isinstance(st, ast.Expr) and isinstance(st.value, ast.Call) and isinstance(st.value.func, ast.Attribute) and st.value.func.attr == 'append' \
+                    and isinstance(st.value.func.value, ast.Name) and len(st.value.args) == 1:
+                for t_ in concat_terms(st.value.args[0]):
+                    out.append((st, width(t_)))
         return out
     outer = None
     for st in wv.body:
@@ -224,19 +235,57 @@ def run(ctx):
         raise AnalysisError('construct not understood: readvardef loop')
     rin = [st for st in wl[0].body if isinstance(st, ast.For)]
 
-    def slices_and_advance(body, name='vheader'):
+    # the running text: the name that is re-bound to an open-ended slice of itself
+    running = None
+    for st in iter_stmts(wl[0].body):
+        if isinstance(st, ast.Assign) and isinstance(st.targets[0], ast.Name) and isinstance(st.value, ast.Subscript) and isinstance(st.value.value, ast.Name) \
+                and st.value.value.id == st.targets[0].id and isinstance(st.value.slice, ast.Slice) and st.value.slice.upper is None:
+            running = st.targets[0].id
+    if running is None:
+        raise AnalysisError('construct not understood: readvardef does not advance through the text by re-slicing it')
+
+    def slices_and_advance(body, name=None):
+        """(start, stop) of every field read from the running text in this block - directly or through an entry sliced off it
+        first - and the number of characters the block advances"""
+        name = name or running
         sl, adv = [], None
+        entry = {}         # local -> offset of the slice of the running text it holds
         for st in body:
             if isinstance(st, ast.For):
                 continue
+            if isinstance(st, ast.Assign) and isinstance(st.targets[0], ast.Name) and isinstance(st.value, ast.Subscript) and isinstance(st.value.value, ast.Name) \
+                    and st.value.value.id == name and isinstance(st.value.slice, ast.Slice) and st.value.slice.upper is not None and st.targets[0].id != name:
+                entry[st.targets[0].id] = int(num(st.value.slice.lower)) if st.value.slice.lower is not None else 0
+                continue
+            def span(n):
+                """(start, stop or None) of a slicing expression relative to the running text, through entries and nested slices"""
+                if not (isinstance(n, ast.Subscript) and isinstance(n.slice, ast.Slice)):
+                    return None
+                lo = int(num(n.slice.lower)) if n.slice.lower is not None else 0
+                up = int(num(n.slice.upper)) if n.slice.upper is not None else None
+                b_ = n.value
+                if isinstance(b_, ast.Name) and b_.id == name:
+                    off = 0
+                elif isinstance(b_, ast.Name) and b_.id in entry:
+                    off = entry[b_.id]
+                else:
+                    inner = span(b_)
+                    if inner is None:
+                        return None
+                    off = inner[0]
+                return (off + lo, (off + up) if up is not None else None)
+            inner_ids = set(id(n.value) for n in walk_expr(st) if isinstance(n, ast.Subscript) and isinstance(n.slice, ast.Slice))
             for n in walk_expr(st):
-                if isinstance(n, ast.Subscript) and isinstance(n.value, ast.Name) and n.value.id == name and isinstance(n.slice, ast.Slice):
-                    lo = int(num(n.slice.lower)) if n.slice.lower is not None else 0
-                    if n.slice.upper is None:
-                        if isinstance(st, ast.Assign) and isinstance(st.targets[0], ast.Name) and st.targets[0].id == name:
-                            adv = lo
-                    else:
-                        sl.append((lo, int(num(n.slice.upper))))
+                if id(n) in inner_ids:
+                    continue
+                sp = span(n)
+                if sp is None:
+                    continue
+                if sp[1] is None:
+                    if isinstance(n.value, ast.Name) and n.value.id == name and isinstance(st, ast.Assign) and isinstance(st.targets[0], ast.Name) and st.targets[0].id == name:
+                        adv = sp[0]
+                else:
+                    sl.append(sp)
         return sl, adv
     r_lvl, a_lvl = slices_and_advance(wl[0].body)
     r_var, a_var = slices_and_advance(rin[0].body) if rin else ([], None)
@@ -244,6 +293,8 @@ def run(ctx):
 
     def cmp(kind, ws, rs, adv):
         widths = [w for st, w in ws]
+        if not ws:
+            raise AnalysisError('construct not understood: no text pieces written per %s entry in writevardef' % kind)
         if None in widths:
             ctx.undec('R-ARLWIDTH', kind, where, 'a written piece has no static width')
             return
@@ -386,21 +437,21 @@ def run(ctx):
     gvf = mod.func('arlpackedbit._getvar')
     wgv = 'src/PseudoNetCDF/%s arlpackedbit._getvar' % RP
     nh = 0
+    from .. import paths as _paths
     for c in ast.walk(gvf):
-        if isinstance(c, ast.Call) and dotted(c.func) == 'unpack' and len(c.args) == 3 and all(isinstance(a, ast.Name) for a in c.args[1:]):
-            defs = []
-            for a in c.args[1:]:
-                d_ = [st for st in iter_stmts(gvf.body) if isinstance(st, ast.Assign) and norm(st.targets[0]) == a.id and st.lineno < c.lineno]
-                defs.append(d_[-1] if d_ else None)
-            if None in defs:
+        if isinstance(c, ast.Call) and dotted(c.func) == 'unpack' and len(c.args) == 3:
+            # each argument as written or, when it is a local, the expression that defines it (one level)
+            env = _paths.dominating_env(gvf, api.stmt_of(c), deep=False)
+            vals = [env.get(a.id, a) if isinstance(a, ast.Name) else a for a in c.args[1:]]
+            if not all("['VAR1']" in norm(v) or "['EXP']" in norm(v) for v in vals):
                 continue
             nh += 1
-            idx = [re.sub(r"\['(VAR1|EXP)'\]", "[F]", norm(d_.value)) for d_ in defs]
+            idx = [re.sub(r"\['(VAR1|EXP)'\]", "[F]", norm(v)) for v in vals]
             if idx[0] == idx[1]:
-                ctx.ok('R-HEADPAIR', 'unpack@%d' % c.lineno, wgv, '%s / %s' % (norm(defs[0].value), norm(defs[1].value)))
+                ctx.ok('R-HEADPAIR', 'unpack@%d' % c.lineno, wgv, '%s / %s' % (norm(vals[0]), norm(vals[1])))
             else:
-                ctx.violation(Finding('R-HEADPAIR', RP, 'arlpackedbit._getvar', defs[1], 'the first value is taken as %s but the exponent as %s: records of other times/levels are decoded with the '
-                                      'exponent of another record' % (norm(defs[0].value), norm(defs[1].value))))
+                ctx.violation(Finding('R-HEADPAIR', RP, 'arlpackedbit._getvar', api.stmt_of(c), 'the first value is taken as %s but the exponent as %s: records of other times/levels are decoded with the '
+                                      'exponent of another record' % (norm(vals[0]), norm(vals[1]))))
     ctx.floor('unpack calls with header fields', nh, 2)
     # ---- R-NOSTATE: no mutable default argument that the function fills (the layout of one file must not leak into the next call)
     from .. import lints as _l20
